@@ -21,6 +21,7 @@ import KojenVerif.Lemmas.EngineNestedWF
 import KojenVerif.Lemmas.EngineProto
 import KojenVerif.Lemmas.EngineSecondWF
 import KojenVerif.Lemmas.EngineLoadWF
+import KojenVerif.Lemmas.EngineSpecLink
 /-
   Line-protocol driver: one JSON object per input line, one JSON object per output line.
   Run with `lake env lean --run Driver/Main.lean`.  The harness pipes the same inputs to the
@@ -642,6 +643,9 @@ def handle (j : Json) : Except String Json := do
     let chain := Spec.stripBrackets globals
     let tfiles := files.map (fun its => ({ name := [], items := its } : Engine.TFile))
     let genOk := (Engine.toPat chain == globals) && Engine.genOKB m chain ut tfiles
+    -- ... and inside the grammar of C17_generate_is_spec (generator output = reference expansion)?
+    let specOk := genOk && chain.all (fun kv => decide (Engine.Clean kv.1 ∧ Engine.NoEq kv.1) && decide (Engine.Clean kv.2)) &&
+      decide (Engine.UtFree ut) && tfiles.all (fun f => decide (Engine.LinkFileOK m chain f.items))
     for items0 in files do
       filesN := filesN + 1
       -- the file as the second filtering receives it (STATE_0 still to be replaced)
@@ -694,7 +698,8 @@ def handle (j : Json) : Except String Json := do
                       ("pst_blocks", n pstBlocks), ("pst_blocks_ok", n pstOk),
                       ("struct_blocks", n pblocks), ("struct_blocks_ok", n pblocksOk),
                       ("files", n filesN), ("files_second_filtering_ok", n filesOk),
-                      ("generator_inputs", n 1), ("generator_inputs_ok", n (if genOk then 1 else 0))])
+                      ("generator_inputs", n 1), ("generator_inputs_ok", n (if genOk then 1 else 0)),
+                      ("generator_inputs_spec_ok", n (if specOk then 1 else 0))])
   | "vpp" => do
     let rows3 (k : String) : Except String (List (List Str)) := do
       (← (← j.getObjVal? k).getArr?).toList.mapM asStrs
